@@ -180,3 +180,35 @@ Theorem acc_reaction_calc : acc_spec "reaction_calc" gen_acc
    (T_LOCAL, 0%Z, ASub (AVar "dlocal0") (AVar "iter(cxxReaction.Get_reactantList).second"))].
 Proof. exact GenProofs.acc_reaction_calc. Qed.
 Print Assumptions acc_reaction_calc.
+
+(* T-gen, guards: under which surface types / flags each accumulation statement of add_surface executes -- every
+   electrostatic type (DDL, CCM, CD_MUSIC) adds its plane charges to cb_x, NO_EDL its site charges, the diffuse layer
+   its totals when present and not new_def; quantified over ALL types *)
+Theorem guard_add_surface : forall t d nd hp hw,
+  forallb (fun a => Bool.eqb (geval (surf_env t d nd hp hw) (g_guard a))
+                             (surf_expected t d nd hp hw (g_target a) (g_exp a)))
+          (gaccs_of "add_surface" gen_guard) = true /\
+  length (gaccs_of "add_surface" gen_guard) = 8%nat.
+Proof. exact GenProofs.guard_add_surface. Qed.
+Print Assumptions guard_add_surface.
+
+Theorem guard_add_exchange : forall nd hp hw,
+  forallb (fun a => Bool.eqb (geval (exch_env nd hp hw) (g_guard a)) (exch_expected nd hp hw (g_target a) (g_exp a)))
+          (gaccs_of "add_exchange" gen_guard) = true /\
+  length (gaccs_of "add_exchange" gen_guard) = 4%nat.
+Proof. exact GenProofs.guard_add_exchange. Qed.
+Print Assumptions guard_add_exchange.
+
+(* in every add_* function H is routed to total_h_x, O to total_o_x, the rest to master->total *)
+Theorem routing_all : Forall routing_ok routed_entries /\ (24 <= length routed_entries)%nat.
+Proof. exact GenProofs.routing_all. Qed.
+Print Assumptions routing_all.
+
+(* the phase is debited under exactly the condition under which the solution is credited *)
+Theorem debit_credit_pp : debit_credit "add_pp_assemblage".
+Proof. exact GenProofs.debit_credit_pp. Qed.
+Print Assumptions debit_credit_pp.
+
+Theorem debit_credit_ss : debit_credit "add_ss_assemblage".
+Proof. exact GenProofs.debit_credit_ss. Qed.
+Print Assumptions debit_credit_ss.
